@@ -82,6 +82,15 @@ class CircleCurve(AnalyticCurve):
     def _get_point(self, param: float):
         return f.rotate(self.rim.position, param, self.normal, self.origin.position)
 
+    def mirror(self, normal: VectorType, origin: Optional[PointType] = None):
+        """A reflection reverses the sense of rotation: the mirrored curve
+        runs about the opposite normal so that the same parameter gives the mirrored point"""
+        super().mirror(normal, origin)
+
+        self.atop.position = 2 * self.origin.position - self.atop.position
+
+        return self
+
     @property
     def normal(self) -> NPVectorType:
         return self.atop.position - self.origin.position
